@@ -118,6 +118,20 @@ theorem C12_copy_any (st : PadStyle) (txt : Bytes) (s : Seq) (ops : List SeqOp)
   obtain ⟨h9, h10⟩ := copy_paths r hs
   exact ⟨h1, h2, h3, h4, h5, h6, h7, h8, h9, h10⟩
 
+/-- … and Split, after every history, whenever the range string of the current frame set parses
+    (it always does unless a printed number does not fit an int): one part per comma component
+    with the sequence's dirname, basename, pad, width, style and extension, whose frames
+    concatenate (first occurrences) to the sequence's frames. -/
+theorem C12_split_any (st : PadStyle) (txt : Bytes) (s : Seq) (ops : List SeqOp)
+    (h : Seq.parse st txt = .ok s) (fs fs' : FrameSet) (hfs : (s.run ops).frameSet = some fs)
+    (hp : FrameSet.parse fs.frange = .ok fs') :
+    ((s.run ops).split).length = (splitOn ',' fs.frange).length ∧
+    (∀ p ∈ (s.run ops).split, p.dir = (s.run ops).dir ∧ p.base = (s.run ops).base ∧
+        p.pad = (s.run ops).pad ∧ p.zfill = (s.run ops).zfill ∧ p.style = (s.run ops).style ∧
+        p.ext = (s.run ops).ext ∧ p.frameSet.isSome = true) ∧
+    dedupFirst (((s.run ops).split).flatMap Seq.frames) = fs.frames :=
+  split_sound _ (C12_history_sound st txt s ops h) fs fs' hfs hp
+
 /-- non-vacuity: a history with both derived calls -/
 example : SeqOp.derived .invertSet = true ∧ SeqOp.derived .normalize = true ∧
     (∃ s, Seq.parse .hash4 "/d/b.1-5,9#.exr".toList = .ok s) := by
